@@ -110,6 +110,42 @@ def scene(rng, cone, solver, jac, condims=(1, 3, 4, 6)):
   return "\n".join(out), info
 
 
+def cut_scene(rng, cone, solver, jac):
+  """Returns (xml, info) of a CUT-OFF-solve scene: a short non-colliding serial chain (nv in {2, 4}) whose joints (and
+  optionally a fixed tendon) carry dry friction, solved with a small iteration limit and warm start enabled. info: nv,
+  iterations, fl (per-dof frictionloss), tendon (bool), limits (bool), gravity (bool)."""
+  nv = int(rng.choice([2, 2, 4]))
+  iters = int(rng.choice([1, 1, 1, 2, 2, 2, 3, 3, 5, 50]))
+  ts = rng.choice([0.001, 0.002, 0.005])
+  gravity = bool(rng.random() < 0.5)
+  limits = bool(rng.random() < 0.25)
+  tol = ' tolerance="1e-10"' if rng.random() < 0.5 else ""
+  flag = "" if gravity else '<flag gravity="disable"/>'
+  out = ["<mujoco>", f'  <option timestep="{ts}" cone="{cone}" solver="{solver}" jacobian="{jac}" iterations="{iters}"{tol}>{flag}</option>', '  <compiler angle="radian"/>', "  <worldbody>"]
+  ind = "    "
+  fl = []
+  for k in range(nv):
+    jt = "slide" if rng.random() < 0.25 else "hinge"
+    axis = ("0 1 0", "1 0 0", "0 0 1")[int(rng.integers(3))]
+    f = float(rng.uniform(0.2, 3.0)) if (rng.random() < 0.85 or (k == nv - 1 and not any(fl))) else 0.0
+    fl.append(f)
+    lim = ' limited="true" range="-2.5 2.5"' if limits and rng.random() < 0.5 else ""
+    out.append(f'{ind}<body name="c{k}" pos="{"0 0 1" if k == 0 else "0.4 0 0"}">')
+    out.append(f'{ind}  <joint name="c{k}" type="{jt}" axis="{axis}" frictionloss="{_f(f)}" damping="{_f(rng.uniform(0.0, 0.2))}" armature="{_f(rng.uniform(0.0, 0.05))}"{lim}/>')
+    out.append(f'{ind}  <geom type="capsule" fromto="0 0 0 0.4 0 0" size="0.04" mass="{_f(rng.uniform(0.3, 2))}" contype="0" conaffinity="0"/>')
+    ind += "  "
+  for k in range(nv):
+    ind = ind[:-2]
+    out.append(f"{ind}</body>")
+  out.append("  </worldbody>")
+  tendon = bool(rng.random() < 0.4)
+  if tendon:
+    c = " ".join(f'<joint joint="c{k}" coef="{_f(rng.uniform(0.5, 1.5) * rng.choice([-1, 1]))}"/>' for k in range(nv) if k < 2 or rng.random() < 0.5)
+    out += ["  <tendon>", f'    <fixed name="t0" frictionloss="{_f(rng.uniform(0.2, 2.0))}">{c}</fixed>', "  </tendon>"]
+  out.append("</mujoco>")
+  return "\n".join(out), {"nv": nv, "iterations": iters, "fl": fl, "tendon": tendon, "limits": limits, "gravity": gravity}
+
+
 def _arm_adr(mjm, info):
   """qpos / dof addresses of the arm joints (they follow the nb free joints)."""
   return [int(mjm.jnt_qposadr[info["nb"] + k]) for k in range(info["narm"])], [int(mjm.jnt_dofadr[info["nb"] + k]) for k in range(info["narm"])]
